@@ -101,3 +101,16 @@ Proof.
   - intros; apply dd_ratio_invariant; assumption.
   - intros; apply modulus_invariant; assumption.
 Qed.
+
+(* the redshift range of the interpolated supply modes (z_stop = _z_max, C05_mode_sampled_interp / C05_mode_fixed) covers every redshift a
+   distance is asked at: it is the largest of all source and second-source redshifts - a second source IN FRONT of the first does not
+   shorten it - and the anchor redshift *)
+Theorem C05_z_max_covers_all_redshifts : forall zs1 zs2a zs2b za rg cu,
+  (0 < zs1 -> zs1 < zs2a -> zs2a < zs2b ->
+     exists o, yields Gz 120 (CClass "CosmoLikelihood" src_CosmoLikelihood_init) None (init_args zs1 zs2a zs2b za) [] rg cu o cu [] /\ fieldz o "_z_max" = Some (num (Rmax zs2b za)))
+  /\ (0 < zs1 -> zs1 < zs2a -> zs2b < zs2a ->
+     exists o, yields Gz 120 (CClass "CosmoLikelihood" src_CosmoLikelihood_init) None (init_args zs1 zs2a zs2b za) [] rg cu o cu [] /\ fieldz o "_z_max" = Some (num (Rmax zs2a za)))
+  /\ (0 < zs2a -> zs2a < zs1 -> zs2b < zs1 ->
+     exists o, yields Gz 120 (CClass "CosmoLikelihood" src_CosmoLikelihood_init) None (init_args zs1 zs2a zs2b za) [] rg cu o cu [] /\ fieldz o "_z_max" = Some (num (Rmax zs1 za))).
+Proof. intros. split; [apply z_max_second_behind | split; [apply z_max_second_in_front | apply z_max_first_lens_highest]]. Qed.
+Print Assumptions C05_z_max_covers_all_redshifts.
